@@ -139,7 +139,7 @@ func genHistory(r *rand.Rand, o histOpts) *plan.Plan {
 	}
 	p.Incs = append(p.Incs, inc)
 	for i := range p.Incs {
-		p.Incs[i].SchedSeed = r.Uint64() | 1
+		p.Incs[i].SchedSeed = r.Uint64()>>11 | 1
 	}
 	return p
 }
